@@ -1303,3 +1303,237 @@ Proof.
     specialize (Hr Hin Hs). lia.
   - exact I.
 Qed.
+
+(* (D)-(G) advance, persistence notices, apply *)
+Lemma with_obs_quiet a st ph ap :
+  with_obs a no_out st ph ap = mkApp st ph (a_hist a) ap (a_got a).
+Proof.
+  unfold with_obs, hist_step, no_out. cbn [fst snd]. rewrite app_nil_r, orb_false_r.
+  destruct (a_hist a); reflexivity.
+Qed.
+
+Lemma drop_le_In recs k rr : In rr (drop_le recs k) -> In rr recs.
+Proof.
+  induction recs as [|r0 rest IH]; cbn [drop_le]; [auto|].
+  destruct (k <? rr_number r0); [auto|]. intros H. right. apply IH. exact H.
+Qed.
+
+Lemma on_persist_ready_rel n k n' :
+  rn_on_persist_ready n k = Ok n' ->
+  lrel (fun _ => False) (nlog n) (nlog n')
+  /\ (forall rr, In rr (rn_records n') -> In rr (rn_records n))
+  /\ rn_commit_since_index n' = rn_commit_since_index n.
+Proof.
+  intros H. destruct (on_persist_ready_spec _ _ _ H) as (i & t & si & r1 & _ & Er & H1 & H2 & _ & _ & _ & Ec).
+  splits; [|intros rr Hin; rewrite Er in Hin; eapply drop_le_In; exact Hin|exact Ec].
+  unfold nlog.
+  assert (A1 : rrel (fun _ => False) (rn_raft n) r1).
+  { destruct (negb (si =? 0)); [eapply on_persist_snap_rrel; exact H1|inversion H1; apply rrel_eq; reflexivity]. }
+  assert (A2 : rrel (fun _ => False) r1 (rn_raft n')).
+  { destruct (negb (i =? 0)); [eapply on_persist_entries_rrel; exact H2|inversion H2; apply rrel_eq; reflexivity]. }
+  exact (rrel_trans _ _ _ _ A1 A2).
+Qed.
+
+(* commit_ready of the Ready that has been written in full *)
+Lemma commit_ready_done a n rd n1 :
+  Good a n -> a_phase a = Writing rd WDone -> commit_ready n rd = Ok n1 ->
+  NLI false n1 /\ store (nlog n1) = store (nlog n) /\ same_cpa (nlog n) (nlog n1)
+  /\ max_apply_unpersisted_log_limit (nlog n1) = max_apply_unpersisted_log_limit (nlog n)
+  /\ u_snapshot (unst (nlog n1)) = None
+  /\ u_offset (unst (nlog n)) <= u_offset (unst (nlog n1))
+  /\ rn_records n1 = rn_records n /\ rn_max_number n1 = rn_max_number n
+  /\ rn_commit_since_index n1 = rn_commit_since_index n.
+Proof.
+  intros G Eph H. pose proof (Good_NLI a n G) as HI.
+  pose proof (g_phase a n G) as Hph. unfold phase_ok in Hph. rewrite Eph in Hph.
+  destruct Hph as (Hne & He & Hs & Hle & Hsn & Hcs & Hsw & Hew).
+  assert (Hcp : commit_pre n).
+  { unfold commit_pre. split; [intros _; exact Hsw|].
+    intros Hl. apply Hew. rewrite Hle in Hl. unfold rec_last_of in Hl.
+    destruct (u_entries (unst (nlog n))); [congruence|discriminate]. }
+  destruct (commit_ready_pres false _ _ _ H Hcp HI) as (A1 & _ & C1 & D & E1 & F1).
+  destruct (commit_ready_stabilises _ _ _ H) as (_ & _ & _ & En1).
+  assert (Eu1 : unst (nlog n1) = stabilised (unst (nlog n)) (List.last (rn_records n) rr_default))
+    by (rewrite En1; reflexivity).
+  assert (El1 : max_apply_unpersisted_log_limit (nlog n1) = max_apply_unpersisted_log_limit (nlog n))
+    by (rewrite En1; reflexivity).
+  assert (Hst : u_snapshot (stabilised (unst (nlog n)) (List.last (rn_records n) rr_default)) = None
+                /\ u_offset (unst (nlog n))
+                   <= u_offset (stabilised (unst (nlog n)) (List.last (rn_records n) rr_default))).
+  { unfold stabilised. rewrite Hle, Hsn.
+    destruct (u_entries (unst (nlog n))) as [|e0 t0] eqn:Eu; cbn [rec_last_of].
+    - destruct (u_snapshot (unst (nlog n))) eqn:Es; cbn [option_map u_snapshot u_offset]; split; auto; lia.
+    - cbn [u_snapshot u_offset]. split; [reflexivity|].
+      pose proof (ri_contig false _ HI) as Hc. fold (nlog n) in Hc. rewrite Eu in Hc.
+      rewrite (last_contig_index _ _ entry_default Hc ltac:(discriminate)). cbn [length]. lia. }
+  rewrite <- Eu1 in Hst. destruct Hst as [Hst1 Hst2].
+  splits; auto. eapply commit_ready_csi; exact H.
+Qed.
+
+Lemma advance_mid a n rd n1 n2 :
+  Good a n -> a_phase a = Writing rd WDone -> commit_ready n rd = Ok n1 ->
+  rn_on_persist_ready n1 (rn_max_number n1) = Ok n2 ->
+  NLI false n2 /\ store (nlog n2) = store (nlog n) /\ applied (nlog n2) = applied (nlog n)
+  /\ committed (nlog n) <= committed (nlog n2)
+  /\ max_apply_unpersisted_log_limit (nlog n2) = 0
+  /\ u_snapshot (unst (nlog n2)) = None
+  /\ u_offset (unst (nlog n)) <= u_offset (unst (nlog n2))
+  /\ (forall rr, In rr (rn_records n2) -> In rr (rn_records n))
+  /\ rn_commit_since_index n2 = rn_commit_since_index n.
+Proof.
+  intros G Eph H1 H2.
+  destruct (commit_ready_done a n rd n1 G Eph H1) as (A1 & B1 & (C1 & C2 & C3) & D1 & E1 & F1 & R1 & M1 & S1).
+  assert (P2 : persist_pre n1 (rn_max_number n1)).
+  { apply persist_pre_of_recs. rewrite R1, B1. intros rr i t Hin Hs.
+    apply (g_recs a n G rr i t); [|exact Hs]. unfold recs_done. rewrite Eph. exact Hin. }
+  destruct (rn_on_persist_ready_pres false _ _ _ H2 P2 A1) as (A2 & (S2a & S2b & S2c)).
+  destruct (on_persist_ready_rel _ _ _ H2) as (((L1 & L2 & L3 & L4 & L5 & L6) & L7) & Rr & Sc).
+  splits; auto.
+  - congruence.
+  - congruence.
+  - lia.
+  - apply L6. rewrite D1. exact (g_limit a n G).
+  - rewrite S2b. exact E1.
+  - rewrite S2b. exact F1.
+  - intros rr Hin. rewrite <- R1. apply Rr. exact Hin.
+  - congruence.
+Qed.
+
+Lemma good_advance_append a n rd n' lr :
+  Good a n -> a_phase a = Writing rd WDone -> idx_margin n (OAdvanceAppend rd) ->
+  rn_advance_append n rd = Ok (n', lr) ->
+  Good (with_obs a (None, lr_committed_entries lr) (a_store a) Idle (a_applied a)) n'.
+Proof.
+  intros G Eph Hm H.
+  set (ot := (None, lr_committed_entries lr) : out).
+  assert (E : exec n (OAdvanceAppend rd) = Ok (n', ot)) by (cbn [exec]; rewrite H; reflexivity).
+  assert (Ha : app_ok a (OAdvanceAppend rd)) by exact Eph.
+  destruct (side_ok a n _ G Ha I Hm ltac:(intros m C; discriminate)) as [W2 W3].
+  pose proof (Good_NLI a n G) as HI. pose proof (Good_CsiOK a n G) as Hc.
+  destruct (rn_advance_append_inv _ _ _ _ H) as (n1 & n2 & n3 & lr3 & H1 & H2 & H3 & _ & _ & _ & _ & Hn' & Hl).
+  destruct (advance_mid a n rd n1 n2 G Eph H1 H2) as (A2 & B2 & C2 & D2 & E2 & F2 & O2 & R2 & S2).
+  assert (Hc2 : CsiOK n2) by (unfold CsiOK; rewrite S2; exact Hc).
+  destruct (glr_bounds false n2 n3 lr3 H3 A2 Hc2 E2) as (L3 & M3 & B3 & O3 & G3).
+  { rewrite S2. pose proof (g_csi_commit a n G). lia. }
+  { rewrite S2. pose proof (g_csi_stable a n G). lia. }
+  assert (Elog : nlog n' = nlog n2) by (subst n'; exact L3).
+  assert (Ecsi : rn_commit_since_index n' = rn_commit_since_index n3) by (subst n'; reflexivity).
+  assert (Erec : rn_records n' = rn_records n2).
+  { subst n'. destruct (gen_light_ready_spec _ _ _ H3) as (oe & k & _ & _ & -> & _). reflexivity. }
+  assert (Ece : lr_committed_entries lr = lr_committed_entries lr3) by (subst lr; reflexivity).
+  constructor; cbn [a_store a_phase a_hist a_applied a_got with_obs]; rewrite ?Elog, ?Ecsi.
+  - eapply exec_good; [exact E|exact W2|exact (g_good a n G)].
+  - rewrite B2. exact (g_store a n G).
+  - eapply handout_exec; [exact (g_hist a n G)| |exact E].
+    eapply op_pre_node_op_pre; [exact HI|]. eapply op_pre_node2_node; eassumption.
+  - rewrite C2. exact (g_applied a n G).
+  - rewrite C2. pose proof (g_app_le a n G). lia.
+  - exact B3.
+  - exact O3.
+  - exact E2.
+  - rewrite B2. pose proof (g_first a n G). lia.
+  - rewrite F2. intros s C. discriminate.
+  - intros Hg. apply orb_true_iff in Hg. destruct Hg as [Hg|Hg].
+    + pose proof (g_got a n G Hg). lia.
+    + apply G3. unfold ot in Hg. cbn [snd] in Hg. rewrite Ece in Hg.
+      destruct (lr_committed_entries lr3); discriminate.
+  - unfold recs_done. cbn [a_phase with_obs]. rewrite Erec, B2. intros rr i t Hin Hs.
+    apply (g_recs a n G rr i t); [|exact Hs]. unfold recs_done. rewrite Eph. apply R2. exact Hin.
+  - exact I.
+Qed.
+
+Lemma good_advance_async a n rd n' :
+  Good a n -> a_phase a = Writing rd WDone -> idx_margin n (OAdvanceAppendAsync rd) ->
+  rn_advance_append_async n rd = Ok n' ->
+  Good (with_obs a no_out (a_store a) Idle (a_applied a)) n'.
+Proof.
+  intros G Eph Hm H.
+  assert (E : exec n (OAdvanceAppendAsync rd) = Ok (n', no_out)) by (cbn [exec]; unfold quiet1; rewrite H; reflexivity).
+  assert (Ha : app_ok a (OAdvanceAppendAsync rd)) by exact Eph.
+  destruct (side_ok a n _ G Ha I Hm ltac:(intros m C; discriminate)) as [W2 W3].
+  pose proof (Good_NLI a n G) as HI. pose proof (Good_CsiOK a n G) as Hc.
+  unfold rn_advance_append_async in H.
+  destruct (commit_ready_done a n rd n' G Eph H) as (A1 & B1 & (C1 & C2 & C3) & D1 & E1 & F1 & R1 & M1 & S1).
+  constructor; cbn [a_store a_phase a_hist a_applied a_got with_obs]; rewrite ?S1.
+  - eapply exec_good; [exact E|exact W2|exact (g_good a n G)].
+  - rewrite B1. exact (g_store a n G).
+  - eapply handout_exec; [exact (g_hist a n G)| |exact E].
+    eapply op_pre_node_op_pre; [exact HI|]. eapply op_pre_node2_node; eassumption.
+  - rewrite C3. exact (g_applied a n G).
+  - rewrite C3. exact (g_app_le a n G).
+  - rewrite C1. exact (g_csi_commit a n G).
+  - pose proof (g_csi_stable a n G). lia.
+  - rewrite D1. exact (g_limit a n G).
+  - rewrite B1. exact (g_first a n G).
+  - rewrite E1. intros s C. discriminate.
+  - rewrite orb_false_r. rewrite C1. exact (g_got a n G).
+  - unfold recs_done. cbn [a_phase with_obs]. rewrite R1, B1. intros rr i t Hin Hs.
+    apply (g_recs a n G rr i t); [|exact Hs]. unfold recs_done. rewrite Eph. exact Hin.
+  - exact I.
+Qed.
+
+Lemma good_persist a n k n' :
+  Good a n -> a_phase a = Idle -> idx_margin n (OOnPersistReady k) ->
+  rn_on_persist_ready n k = Ok n' ->
+  Good (with_obs a no_out (a_store a) Idle (a_applied a)) n'.
+Proof.
+  intros G Eph Hm H.
+  assert (E : exec n (OOnPersistReady k) = Ok (n', no_out)) by (cbn [exec]; unfold quiet1; rewrite H; reflexivity).
+  assert (Ha : app_ok a (OOnPersistReady k)) by exact Eph.
+  destruct (side_ok a n _ G Ha I Hm ltac:(intros m C; discriminate)) as [W2 W3].
+  pose proof (Good_NLI a n G) as HI. pose proof (Good_CsiOK a n G) as Hc.
+  destruct (on_persist_ready_rel _ _ _ H) as (((L1 & L2 & L3 & L4 & L5 & L6) & L7) & Rr & Sc).
+  constructor; cbn [a_store a_phase a_hist a_applied a_got with_obs]; rewrite ?Sc.
+  - eapply exec_good; [exact E|exact W2|exact (g_good a n G)].
+  - rewrite L1. exact (g_store a n G).
+  - eapply handout_exec; [exact (g_hist a n G)| |exact E].
+    eapply op_pre_node_op_pre; [exact HI|]. eapply op_pre_node2_node; eassumption.
+  - rewrite L7. exact (g_applied a n G).
+  - rewrite L7. exact (g_app_le a n G).
+  - pose proof (g_csi_commit a n G). lia.
+  - apply L5; [exact (g_csi_commit a n G)|exact (g_csi_stable a n G)].
+  - apply L6. exact (g_limit a n G).
+  - rewrite L1. exact (g_first a n G).
+  - intros s Hs. destruct (L4 s Hs) as [Ho|[]]. exact (g_snap_pos a n G s Ho).
+  - rewrite orb_false_r. intros Hg. pose proof (g_got a n G Hg). lia.
+  - unfold recs_done. cbn [a_phase with_obs]. rewrite L1. intros rr i t Hin Hs.
+    apply (g_recs a n G rr i t); [|exact Hs]. unfold recs_done. rewrite Eph. apply Rr. exact Hin.
+  - exact I.
+Qed.
+
+Lemma good_apply_to a n x n' :
+  Good a n -> a_phase a = Idle -> x <= a_cursor a -> idx_margin n (OAdvanceApplyTo x) ->
+  rn_advance_apply_to n x = Ok n' ->
+  Good (mkApp (a_store a) Idle (a_hist a) (if x =? 0 then a_applied a else x) (a_got a)) n'.
+Proof.
+  intros G Eph Hx Hm H. rewrite (Good_cursor a n G) in Hx.
+  assert (E : exec n (OAdvanceApplyTo x) = Ok (n', no_out)) by (cbn [exec]; unfold quiet1; rewrite H; reflexivity).
+  assert (Ha : app_ok a (OAdvanceApplyTo x)).
+  { split; [exact Eph|]. rewrite (Good_cursor a n G). exact Hx. }
+  destruct (side_ok a n _ G Ha I Hm ltac:(intros m C; discriminate)) as [W2 W3].
+  pose proof (Good_NLI a n G) as HI. pose proof (Good_CsiOK a n G) as Hc.
+  unfold rn_advance_apply_to, lift in H. inv_bind H. inversion H; subst n'. clear H.
+  destruct (commit_apply_rel (fun _ => False) _ _ _ Hx0) as ((L1 & L2 & L3 & L4 & L5 & L6) & L7 & L8).
+  assert (G' : NGood false (n <| rn_raft := x0 |>)) by (eapply exec_good; [exact E|exact W2|exact (g_good a n G)]).
+  assert (Hh : Hist (n <| rn_raft := x0 |>) (a_hist a)).
+  { destruct (g_hist a n G) as [H1 H2]. split; [exact H1|exact H2]. }
+  pose proof (g_store a n G) as P1. pose proof (g_applied a n G) as P2. pose proof (g_app_le a n G) as P3.
+  pose proof (g_csi_commit a n G) as P4. pose proof (g_csi_stable a n G) as P5.
+  pose proof (g_limit a n G) as P6. pose proof (g_first a n G) as P7. pose proof (g_snap_pos a n G) as P8.
+  pose proof (g_got a n G) as P9. pose proof (g_recs a n G) as P10. unfold recs_done in P10. rewrite Eph in P10.
+  unfold nlog in *.
+  constructor; cbn [a_store a_phase a_hist a_applied a_got]; unfold nlog, recs_done; cbn [a_phase]; cbn.
+  - exact G'.
+  - rewrite L1. exact P1.
+  - exact Hh.
+  - rewrite L7, P2. reflexivity.
+  - rewrite L7. destruct (x =? 0); lia.
+  - lia.
+  - apply L5; assumption.
+  - apply L6. exact P6.
+  - rewrite L1. exact P7.
+  - intros s Hs. destruct (L4 s Hs) as [Ho|[]]. exact (P8 s Ho).
+  - intros Hg. specialize (P9 Hg). lia.
+  - rewrite L1. exact P10.
+  - exact I.
+Qed.
